@@ -33,7 +33,7 @@ RULE = ('histories of 2-8 compile_files calls over a shared cache directory (3 s
 ASSUMPTIONS = ['a SIGKILLed writer keeps its completed writes in the page cache: what is enumerated is every prefix of the '
                'writer syscall sequence, not torn sectors or power loss',
                'behaviour = bytes/values/errors of a probe battery derived from my AST',
-               'bit flips inside the pickled value that unpickle to a different object are a known finding (no checksum)']
+               'behaviour is compared on a probe battery, not object identity']
 REPORT = ['histories', 'history_calls', 'crash_points_enumerated', 'crash_points_total', 'crash_outcome:equal',
           'crash_outcome:error', 'damage_cases', 'damage_outcome:equal', 'damage_outcome:error', 'evaluations']
 FLOORS = {'quick': {'history_calls': 150, 'crash_points_enumerated': 150, 'damage_cases': 100},
@@ -64,7 +64,7 @@ def make_variants(seedkey):
     while len(out) < 3 and i < 40:
         gs = GeneratedSpec('{}/v{}'.format(seedkey, i), profile())
         i += 1
-        if gs.legal and not isinstance(gs.compiled('ber'), Exception):
+        if gs.legal and not any(isinstance(gs.compiled(c), Exception) for c in CODECS):
             names = [n for _, n, _ in gs.types()]
             if names == ['T0', 'T1', 'T2', 'T3']:
                 out.append(gs)
